@@ -42,7 +42,13 @@ type c06Step struct {
 	Op     string   `json:"op"`     // wire name
 	Args   []string `json:"args"`   // wire arguments
 	Quoted bool     `json:"quoted,omitempty"`
+	// nested application: the argument written "$tmp" is the result of Inner, handed over without an
+	// intermediate variable (Nest 0: nested call, 1: lambda parameter, 2: element of a list)
+	Inner *c06Step `json:"inner,omitempty"`
+	Nest  int      `json:"nest,omitempty"`
 }
+
+const c06Tmp = "$tmp"
 
 type c06Hist struct {
 	Steps []c06Step `json:"steps"`
@@ -168,7 +174,29 @@ func c06SpecLisp(fn, spec, x string) string {
 
 // lisp renders the step as the form evaluated on the implementation.
 func (st c06Step) lisp() string {
-	a := st.Args
+	a := append([]string(nil), st.Args...)
+	pre, post := "", ""
+	if st.Inner != nil {
+		in := *st.Inner
+		in.Target = "-"
+		inner := in.lisp()
+		sub := inner
+		nest := st.Nest
+		if c06Ops[st.Op].place >= 0 && nest == 0 {
+			nest = 1 // push/pop need a place
+		}
+		switch nest {
+		case 1:
+			pre, post, sub = "(funcall (lambda (zz) ", ") "+inner+")", "zz"
+		case 2:
+			pre, post, sub = "(let ((zz (list "+inner+"))) ", ")", "(car zz)"
+		}
+		for i := range a {
+			if a[i] == c06Tmp {
+				a[i] = sub
+			}
+		}
+	}
 	var form string
 	switch st.Op {
 	case "lit":
@@ -209,6 +237,8 @@ func (st c06Step) lisp() string {
 		form = c06SpecLisp("member", a[0], a[1])
 	case "mapcar2":
 		form = fmt.Sprintf("(mapcar '+ %s %s)", a[0], a[1])
+	case "concat":
+		form = fmt.Sprintf("(concatenate 'list %s %s)", a[0], a[1])
 	case "liststar1":
 		form = fmt.Sprintf("(list* %s)", a[0])
 	case "liststar2":
@@ -273,6 +303,7 @@ func (st c06Step) lisp() string {
 	default:
 		form = "(error \"unknown op\")"
 	}
+	form = pre + form + post
 	if st.Target != "-" {
 		return fmt.Sprintf("(setq %s %s)", st.Target, form)
 	}
@@ -391,8 +422,12 @@ func c06RunImpl(h c06Hist) []c06Obs {
 	scope := slip.NewScope()
 	declared := map[string]bool{}
 	for _, st := range h.Steps {
-		for _, n := range append(st.varArgs(), st.Target) {
-			if n != "-" && !declared[n] {
+		names := append(st.varArgs(), st.Target)
+		if st.Inner != nil {
+			names = append(names, st.Inner.varArgs()...)
+		}
+		for _, n := range names {
+			if n != "-" && n != c06Tmp && !declared[n] {
 				declared[n] = true
 				scope.Let(slip.Symbol(n), nil)
 			}
@@ -434,6 +469,13 @@ func c06Request(h c06Hist, obs []c06Obs) string {
 	var sb strings.Builder
 	sb.WriteString("heap run")
 	for i, st := range h.Steps {
+		if st.Inner != nil {
+			in := *st.Inner
+			in.Target = c06Tmp
+			sb.WriteByte(' ')
+			sb.WriteString(in.wire())
+			sb.WriteString(" O;x") // nothing is observable between the inner and the outer call
+		}
 		sb.WriteByte(' ')
 		sb.WriteString(st.wire())
 		sb.WriteString(" O;")
@@ -490,6 +532,47 @@ func c06ParseReply(line string) ([]c06StepReply, error) {
 	return out, nil
 }
 
+// c06MergeReplies folds the model's answer for an inner call into the answer for its step.
+func c06MergeReplies(h c06Hist, raw []c06StepReply) []c06StepReply {
+	var out []c06StepReply
+	ri := 0
+	for _, st := range h.Steps {
+		if ri >= len(raw) {
+			break
+		}
+		if st.Inner == nil {
+			out = append(out, raw[ri])
+			ri++
+			continue
+		}
+		in := raw[ri]
+		ri++
+		if in.Status == "circ" || in.Status == "fuel" {
+			out = append(out, in)
+			break
+		}
+		if ri >= len(raw) {
+			break
+		}
+		o := raw[ri]
+		ri++
+		if in.Status == "err" {
+			stop := o.Status == "circ" || o.Status == "fuel"
+			o = c06StepReply{Status: "err", Expected: "e", May: map[string]bool{}, Diverged: o.Diverged}
+			if stop { // the model went on without the rejected value and ended the history
+				out = append(out, o, c06StepReply{Status: "circ", Expected: "-", May: map[string]bool{}, Diverged: map[string]bool{}})
+				break
+			}
+		} else {
+			for n := range in.May {
+				o.May[n] = true
+			}
+		}
+		out = append(out, o)
+	}
+	return out
+}
+
 // ---------------------------------------------------------------------------------------------
 // judging one history
 
@@ -508,6 +591,7 @@ type c06Verdict struct {
 	Circular   bool // model ended the history (circular structure)
 	Nontrivial bool
 	Diverged   int // steps at which slip's extra copying was observed (accepted)
+	Nested     int // steps whose list argument was the direct result of another call
 }
 
 func c06IsPrefix(old, nw string) bool {
@@ -541,6 +625,18 @@ func c06Judge(h c06Hist, obs []c06Obs, reply []c06StepReply) (v c06Verdict, mach
 		}
 		info := c06Ops[st.Op]
 		v.Checked++
+		if st.Inner != nil {
+			c := origin{st.Inner.Op, i}
+			if c06Ops[st.Inner.Op].kind == c06Share {
+				if va := st.Inner.varArgs(); len(va) > 0 {
+					if pc, ok := creator[va[0]]; ok {
+						c = pc
+					}
+				}
+			}
+			creator[c06Tmp] = c
+			v.Nested++
+		}
 		fail := func(aspect, name, observed, expected string) {
 			// creator: the operation that made the illegal alias possible, looked for among the
 			// creators of the changed variable and of the operation's list arguments. An
@@ -767,6 +863,10 @@ var c06Templates = []c06Tmpl{
 	c06V("sort", "desc", "$1"), c06V("sort", "asc,key=neg", "$1"), c06V("sort", "desc,key=inc", "$1"),
 	c06V("mapcar2", "$1", "$2"), c06V("mapcar2", "$1", "$1"),
 	c06V("liststar1", "$1"), c06V("liststar2", "$v", "$1"),
+	c06V("concat", "$1", "$2"), c06V("concat", "$1", "nil"), c06V("concat", "nil", "$1"),
+	// everything goes: empty results
+	c06V("remove", "gt:0", "$1"), c06V("remove", "gt:0,fromend", "$1"), c06V("delete", "gt:0", "$1"), c06V("subseq", "2", "2", "$1"), c06V("subseq", "3", "3", "$1"),
+	c06V("nthcdr", "3", "$1"), c06V("butlast", "4", "$1"), c06V("member", "gt:7", "$1"),
 	c06V("nthcdr", "1", "$1"), c06V("last", "3", "$1"), c06V("butlast", "3", "$1"), c06V("subseq", "1", "1", "$1"), c06V("subseq", "0", "1", "$1"),
 }
 
@@ -948,6 +1048,63 @@ func c06SweepShort() []c06Hist {
 	return out
 }
 
+// sweep S4: nested application. The result of every creator (in particular the EMPTY results:
+// subseq with start = end, remove of everything, butlast of a singleton, nthcdr to the end, mapcar
+// over nil ...) is handed directly to an extending or destructive operation, without an intermediate
+// variable (setq/let normalise an empty list to nil, a nested call does not): as a nested call, as a
+// lambda parameter or as an element of a list. Every variable is then compared.
+func c06SweepNested() []c06Hist {
+	var out []c06Hist
+	contents := []string{"", "3", "3.1", "1.3.1", "3.1.4.2.5"}
+	outers := []c06Tmpl{
+		c06T("add", "$1", "$v"), c06T("add", "$1", "$v.$w"), c06T("nconc", "$1", "$2"), c06T("nconc", "$2", "$1"), c06T("append", "$1", "$2"),
+		c06T("push", "$v", "$1"), c06T("cons", "$v", "$1"), c06T("liststar", "$v", "$w", "$1"), c06T("rplacd", "$2", "$1"),
+		c06T("rplaca", "$1", "$v"), c06T("setnth", "0", "$1", "$v"), c06T("nreverse", "$1"), c06T("sort", "asc", "$1"),
+		c06T("delete", "eq:1", "$1"), c06T("concat", "$1", "$2"), c06T("mapcar2", "$1", "$2"),
+	}
+	for li, vals := range contents {
+		for _, flavour := range []int{0, 1, 2} {
+			for operand := 0; operand < 2; operand++ {
+				if operand > 0 && li < 2 {
+					continue
+				}
+				for ci, cr := range c06Templates {
+					// inner calls are non-destructive: nothing is observable between the two calls, so
+					// the model's prediction for the intermediate state must be exact
+					if c06Ops[cr.op].atomRes || c06Ops[cr.op].place >= 0 || c06Destructive(cr.op) {
+						continue
+					}
+					for ei, ex := range outers {
+						g := &c06Gen{}
+						h := c06Hist{Sweep: fmt.Sprintf("S4 l=%d f=%d o=%d c=%d e=%d", li, flavour, operand, ci, ei)}
+						h.Steps = append(h.Steps, c06BaseOf("a", flavour, vals)...)
+						x := "a"
+						if operand == 1 {
+							h.Steps = append(h.Steps, c06Step{Target: "tl", Op: "cdr", Args: []string{"a"}})
+							x = "tl"
+						}
+						h.Steps = append(h.Steps, c06Lit("c", "6", false), c06Lit("d", "8", true))
+						h.Setup = len(h.Steps)
+						inner := cr.inst(g, "-", x, "c")
+						st := ex.inst(g, "r", c06Tmp, "d")
+						st.Inner = &inner
+						st.Nest = (ci + ei) % 3
+						h.Steps = append(h.Steps, st)
+						// and once more: extending the same (possibly empty) result of the same creator
+						inner2 := cr.inst(g, "-", x, "c")
+						st2 := c06T("add", "$1", "$v").inst(g, "s", c06Tmp, "d")
+						st2.Inner = &inner2
+						st2.Nest = (ci + ei + 1) % 3
+						h.Steps = append(h.Steps, st2)
+						out = append(out, h)
+					}
+				}
+			}
+		}
+	}
+	return out
+}
+
 // c06Families tracks, for the composite generators, which variables may physically share a backing
 // array (over-approximation) and which families already had an in-place extension applied
 // (add, nconc, rplacd use Go append on their argument). A second add/nconc on such a family is the
@@ -989,6 +1146,25 @@ func (f *c06Families) merge(a, b int) int {
 
 // listed reports whether the step is the construct of a listed finding.
 func (f *c06Families) listed(st c06Step) bool {
+	if st.Inner != nil {
+		// decide on the state the outer call will see
+		g := &c06Families{fam: map[string]int{}, extended: map[int]bool{}, next: f.next}
+		for k, v := range f.fam {
+			g.fam[k] = v
+		}
+		for k, v := range f.extended {
+			g.extended[k] = v
+		}
+		in := *st.Inner
+		in.Target = c06Tmp
+		if g.listed(in) {
+			return true
+		}
+		g.apply(in)
+		out := st
+		out.Inner = nil
+		return g.listed(out)
+	}
 	if st.Op != "add" && st.Op != "nconc" {
 		return false
 	}
@@ -1001,6 +1177,11 @@ func (f *c06Families) listed(st c06Step) bool {
 }
 
 func (f *c06Families) apply(st c06Step) {
+	if st.Inner != nil {
+		in := *st.Inner
+		in.Target = c06Tmp
+		f.apply(in)
+	}
 	info := c06Ops[st.Op]
 	args := st.varArgs()
 	switch info.kind {
@@ -1016,17 +1197,27 @@ func (f *c06Families) apply(st c06Step) {
 			f.extended[id] = true
 		}
 		if st.Target != "-" && !info.atomRes {
-			f.fam[st.Target] = id
+			f.join(st.Target, id)
 		}
 	default: // fresh results
 		f.next++
 		if st.Target != "-" {
-			f.fam[st.Target] = f.next
+			f.join(st.Target, f.next)
 		}
 		if st.Op == "push" && len(args) > 0 {
-			f.fam[args[0]] = f.next
+			f.join(args[0], f.next)
 		}
 	}
+}
+
+// join assigns a variable to a family. The generator does not know whether the step will succeed
+// (a condition leaves the variable with its old value), so a variable that already has a family is
+// never moved out of it: the two families are merged (over-approximation).
+func (f *c06Families) join(name string, id int) {
+	if old, ok := f.fam[name]; ok && old != id && name != c06Tmp {
+		id = f.merge(old, id)
+	}
+	f.fam[name] = id
 }
 
 // random pool with aliasing patterns, then up to 6 random operations
@@ -1108,6 +1299,19 @@ func c06Random(g *c06Gen, avoidListed bool) c06Hist {
 				target = "-"
 			}
 			st := t.inst(g, target, v1, v2)
+			if t.nvars > 0 && r.Chance(25) {
+				// the first list argument is the direct result of another call
+				it := c06Templates[r.Intn(len(c06Templates))]
+				if !c06Ops[it.op].atomRes && c06Ops[it.op].place < 0 && !c06Destructive(it.op) {
+					inner := it.inst(g, "-", v1, live[r.Intn(len(live))])
+					st = t.inst(g, target, c06Tmp, v2)
+					st.Inner = &inner
+					st.Nest = r.Intn(3)
+					if st.Target == c06Tmp {
+						st.Target = "-"
+					}
+				}
+			}
 			if avoidListed && fams.listed(st) {
 				continue
 			}
@@ -1283,6 +1487,7 @@ func c06RunBatch(c *lib.Ctx, hists []c06Hist, workers int) []c06Result {
 		for i := lo; i < hi; i++ {
 			rp, err := c06ParseReply(replies[i])
 			if err == nil {
+				rp = c06MergeReplies(res[i].hist, rp)
 				res[i].reply = rp
 				res[i].verdict, err = c06Judge(res[i].hist, res[i].obs, rp)
 			}
@@ -1363,8 +1568,12 @@ func c06Shrink(c *lib.Ctx, h c06Hist, sig string) c06Hist {
 func c06WellFormed(h c06Hist) bool {
 	def := map[string]bool{}
 	for _, st := range h.Steps {
-		for _, n := range st.varArgs() {
-			if !def[n] {
+		names := st.varArgs()
+		if st.Inner != nil {
+			names = append(names, st.Inner.varArgs()...)
+		}
+		for _, n := range names {
+			if n != c06Tmp && !def[n] {
 				return false
 			}
 		}
@@ -1469,6 +1678,7 @@ func runC06(c *lib.Ctx) {
 				c.Ev.Count("histories_ended_by_circular_structure", 1)
 			}
 			c.Ev.Count("steps_with_accepted_extra_copying", r.verdict.Diverged)
+			c.Ev.Count("steps_with_nested_argument", r.verdict.Nested)
 			for i, st := range r.hist.Steps {
 				if i >= r.hist.Setup {
 					c.Ev.Hist("op", st.Op)
@@ -1513,6 +1723,9 @@ func runC06(c *lib.Ctx) {
 	report(s2, true, "sweep_pairs")
 	s3 := c06RunBatch(c, c06SweepShort(), workers)
 	report(s3, true, "sweep_short")
+	s4 := c06RunBatch(c, c06SweepNested(), workers)
+	report(s4, true, "sweep_nested")
+	c.Ev.Coverage["sweep_nested_cases"] = len(s4)
 	c.Ev.Coverage["sweep_value_cases"] = len(s1)
 	c.Ev.Coverage["sweep_pair_cases"] = len(s2)
 	c.Ev.Coverage["sweep_short_operand_cases"] = len(s3)
